@@ -71,6 +71,9 @@ func TestDebugRecover(t *testing.T) {
 	}
 	img := run.Rec.Materialise(ex.K, ex.Tear)
 	fmt.Printf("k=%d db=%d bytes (%d pages) log=%d bytes\n", ex.K, len(img.DB), len(img.DB)/4096, len(img.Log))
+	if d := os.Getenv("VERIF_DEBUG_DUMP"); d != "" {
+		img.WriteFiles(d)
+	}
 	recs, rest, bad := crashsim.ParseLog(img.Log)
 	for _, r := range recs {
 		fmt.Println("   ", r)
